@@ -114,6 +114,17 @@ func genC11(t *rapid.T) C11Case {
 			c.Extra = append(c.Extra, c11Variant(t, b))
 		}
 	}
+	if chancePct(t, 12, "longsession") {
+		// long session ids around buffer-size boundaries: two that differ in the last byte
+		// only, and their common prefix
+		n := []int{31, 32, 33, 63, 64, 65, 127, 128, 129, 200, 254, 255, 256, 300}[uniformN(t, 14, "sessionlen")]
+		stem := strings.Repeat(string(rune('a'+uniformN(t, 26, "sessionfill"))), n-1)
+		typ := dbTypes[4+uniformN(t, 2, "longtyp")]
+		key := []string{"k", "state", "pin"}[uniformN(t, 3, "longkey")]
+		for _, sid := range []string{stem + "1", stem + "2", stem} {
+			c.Writes = append(c.Writes, C11Triple{Typ: typ, Session: BS(sid), Key: BS(key)})
+		}
+	}
 	if chancePct(t, 30, "rewrite") {
 		c.Writes = append(c.Writes, c.Writes[uniformN(t, len(c.Writes), "rewrite")])
 	}
